@@ -20,7 +20,7 @@ theorem sk_sock_only (s0 : St) (fd : Nat) (f : VSock → VSock) (hf : ∀ v, (f 
   rw [sk_modSock _ _ _ hf]; rfl
 
 theorem good_processRead {go} (hgo : GoOk go) {d fd s} (hpre : Pre d s (.processRead fd)) :
-    Good d (.processRead fd) s (bodyProcessRead go fd s) := by
+    GoodO d (.processRead fd) s (bodyProcessRead go fd s) := by
   obtain ⟨hw, hd⟩ := hpre
   unfold bodyProcessRead
   split
@@ -32,18 +32,20 @@ theorem good_processRead {go} (hgo : GoOk go) {d fd s} (hpre : Pre d s (.process
       have hlive := live_of_conn? hc
       have hhas : s.sk.hasConn fd false := by have := hasConn_of_conn? hc; rwa [hcu'] at this
       -- the three kinds of continuation, from any state with the same skeleton
-      have toRA : ∀ s1 : St, s1.sk = s.sk → Good d (.processRead fd) s (go (.readAnswers fd) s1) := by
+      have toRA : ∀ s1 : St, s1.sk = s.sk → GoodO d (.processRead fd) s (go (.readAnswers fd) s1) := by
         intro s1 h1
-        refine Good.tail' (hgo d _ _ ?_) (by rw [h1]; exact StepS.refl _ _ _ _) (Or.inl rfl) (Or.inl rfl) trivial
+        refine Good.tail' (hgo.2 d _ _ ?_) (by rw [h1]; exact StepS.refl _ _ _ _) (Or.inl rfl) (Or.inl rfl)
+          (fun _ => trivial)
         exact ⟨Wf.of_sk_eq h1 hw, by unfold Sk.liveConn; rw [h1]; exact hlive, by rw [h1]; exact hd⟩
-      have toPR : ∀ s1 : St, s1.sk = s.sk → Good d (.processRead fd) s (go (.processRead fd) s1) := by
+      have toPR : ∀ s1 : St, s1.sk = s.sk → GoodO d (.processRead fd) s (go (.processRead fd) s1) := by
         intro s1 h1
-        refine Good.tail' (hgo d _ _ ?_) (by rw [h1]; exact StepS.refl _ _ _ _) (Or.inl rfl) (Or.inl rfl) trivial
+        refine Good.tail' (hgo.2 d _ _ ?_) (by rw [h1]; exact StepS.refl _ _ _ _) (Or.inl rfl) (Or.inl rfl)
+          (fun _ => trivial)
         exact ⟨Wf.of_sk_eq h1 hw, by rw [h1]; exact hd⟩
       have toCE : ∀ s1 : St, s1.sk = s.sk →
-          Good d (.processRead fd) s ((go (.connError fd true .connrefused) s1).1, .connrefused) := by
+          GoodO d (.processRead fd) s ((go (.connError fd true .connrefused) s1).1, .connrefused) := by
         intro s1 h1
-        refine Good.tail (hgo d _ _ ?_) (by rw [h1]; exact StepS.refl _ _ _ _) (Or.inl rfl) (Or.inl rfl) trivial
+        refine Good.tail (hgo.2 d _ _ ?_) (by rw [h1]; exact StepS.refl _ _ _ _) (Or.inl rfl) (Or.inl rfl) trivial
         exact ⟨Wf.of_sk_eq h1 hw, by rw [h1]; exact hhas, by rw [h1]; exact hd⟩
       have hsk0 := sk_fault s "recvfrom"
       generalize s.fault "recvfrom" = r0 at hsk0 ⊢
@@ -102,25 +104,25 @@ theorem sock?_of_conn {s : St} {hole} {fd : Nat} {c : Conn} (hw : WfS s.sk hole)
     exact absurd (hvfd.trans hcfd) this
 
 theorem good_readAnswers {go} (hgo : GoOk go) {d fd s} (hpre : Pre d s (.readAnswers fd)) :
-    Good d (.readAnswers fd) s (bodyReadAnswers go fd s) := by
+    GoodO d (.readAnswers fd) s (bodyReadAnswers go fd s) := by
   obtain ⟨hw, hl, hd⟩ := hpre
   obtain ⟨c, hc⟩ := conn?_of_live hl
   obtain ⟨v, hv⟩ := sock?_of_conn hw hc
   unfold bodyReadAnswers
   simp only [hc, hv]
   -- continuations from an intermediate state
-  have toFR : ∀ s1 : St, Mid d s s1 → Good d (.readAnswers fd) s (go .flushRequeue s1) :=
-    fun s1 hm => hm.tail (hgo d _ _ ⟨hm.wf, hm.debt⟩) (Or.inl rfl) (Or.inl rfl) trivial
+  have toFR : ∀ s1 : St, MidO d s s1 → GoodO d (.readAnswers fd) s (go .flushRequeue s1) :=
+    fun s1 hm => hm.tail hgo (fun hm => ⟨hm.wf, hm.debt⟩) (Or.inl rfl) (Or.inl rfl) (fun _ => trivial)
   split
-  · exact toFR s (Mid.refl hw hd)
+  · exact toFR s (Or.inr (Mid.refl hw hd))
   · rename_i r _
     have hsk1 : (s.modConn fd fun c => { c with inMsgs := c.inMsgs.drop 1, inBytes := c.inBytes - (2 + r.len) }).sk = s.sk := by
       rw [sk_modConn_same]; intro; rfl
     generalize (s.modConn fd fun c => { c with inMsgs := c.inMsgs.drop 1, inBytes := c.inBytes - (2 + r.len) }) = s1
       at hsk1 ⊢
     have hm1 : Mid d s s1 := Mid.of_sk_eq hw hd hsk1
-    have hg := hgo d (.processAnswer fd r) s1 ⟨hm1.wf, by unfold Sk.liveConn; rw [hsk1]; exact hl, hm1.debt⟩
-    have hm2 : Mid d s (go (.processAnswer fd r) s1).1 := hm1.trans (hg.toMid rfl rfl)
+    have hm2 : MidO d s (go (.processAnswer fd r) s1).1 :=
+      hm1.call hgo (.processAnswer fd r) ⟨hm1.wf, by unfold Sk.liveConn; rw [hsk1]; exact hl, hm1.debt⟩ rfl rfl
     generalize go (.processAnswer fd r) s1 = r2 at hm2 ⊢
     obtain ⟨s2, st⟩ := r2
     simp only at hm2 ⊢
@@ -132,9 +134,10 @@ theorem good_readAnswers {go} (hgo : GoOk go) {d fd s} (hpre : Pre d s (.readAns
       · rename_i hcu
         have hcu' : c'.unlinked = false := by simpa using hcu
         split
-        · have hg3 := hgo d (.connError fd true st) s2
-            ⟨hm2.wf, by have := hasConn_of_conn? hc'; rwa [hcu'] at this, hm2.debt⟩
-          exact toFR _ (hm2.trans (hg3.toMid rfl rfl))
-        · exact hm2.tail (hgo d _ _ ⟨hm2.wf, live_of_conn? hc', hm2.debt⟩) (Or.inl rfl) (Or.inl rfl) trivial
+        · refine toFR _ (hm2.bind (hgo.1 _ _) (fun hm2 => ?_))
+          exact hm2.call hgo (.connError fd true st)
+            ⟨hm2.wf, by have := hasConn_of_conn? hc'; rwa [hcu'] at this, hm2.debt⟩ rfl rfl
+        · exact hm2.tail hgo (fun hm2 => ⟨hm2.wf, live_of_conn? hc', hm2.debt⟩) (Or.inl rfl) (Or.inl rfl)
+            (fun _ => trivial)
 
 end Cares.Chan
